@@ -179,6 +179,8 @@ impl RenameRule {
     { unimplemented!() }
 }
 
+//@ EXTRACT-RAW file=src/generators/base/template_context.rs item="const JS_RESERVED_WORDS" static_lifetime=1
+
 impl FieldContext {
 
 //@ EXTRACT-FN file=src/generators/base/template_context.rs in="impl NamingContext for FieldContext" fn=config props=C06,C04
@@ -238,8 +240,11 @@ impl FieldContext {
 //@ CONTRACT
 //@|    requires rust_ident(name@),
 //@|    ensures
-//@|        r@ == camel_spec(name@),
+//@|        // C01: the wrapper is the camelCase name, with an underscore appended when that is a reserved word
+//@|        r@ == (if js_reserved(camel_spec(name@)) { camel_spec(name@) + "_"@ } else { camel_spec(name@) }),
 //@|        !js_reserved(r@),
+//@ BEFORE `if JS_RESERVED_WORDS.contains(&function_name.as_str())`
+//@|    proof { lemma_reserved_plus_underscore(function_name@); }
 //@ END
 
 //@ EXTRACT-FN file=src/generators/base/template_context.rs in="trait NamingContext" fn=compute_type_name props=C01,C15
@@ -270,6 +275,20 @@ pub open spec fn js_reserved(s: Seq<char>) -> bool {
     || s == "instanceof"@ || s == "new"@ || s == "null"@ || s == "switch"@ || s == "this"@ || s == "throw"@
     || s == "typeof"@ || s == "var"@ || s == "void"@ || s == "with"@ || s == "implements"@ || s == "interface"@
     || s == "package"@ || s == "private"@ || s == "protected"@ || s == "public"@ || s == "arguments"@ || s == "eval"@
+}
+
+/// a reserved word followed by `_` is not a reserved word
+pub proof fn lemma_reserved_plus_underscore(s: Seq<char>)
+    ensures !js_reserved(s + "_"@),
+{
+    reveal_strlit("_");
+    let t = s + "_"@;
+    assert(t.last() == '_');
+    reveal_strlit("case"); reveal_strlit("catch"); reveal_strlit("class"); reveal_strlit("debugger"); reveal_strlit("default"); reveal_strlit("delete");
+    reveal_strlit("do"); reveal_strlit("export"); reveal_strlit("extends"); reveal_strlit("finally"); reveal_strlit("function"); reveal_strlit("import");
+    reveal_strlit("instanceof"); reveal_strlit("new"); reveal_strlit("null"); reveal_strlit("switch"); reveal_strlit("this"); reveal_strlit("throw");
+    reveal_strlit("typeof"); reveal_strlit("var"); reveal_strlit("void"); reveal_strlit("with"); reveal_strlit("implements"); reveal_strlit("interface");
+    reveal_strlit("package"); reveal_strlit("private"); reveal_strlit("protected"); reveal_strlit("public"); reveal_strlit("arguments"); reveal_strlit("eval");
 }
 
 /// characters Tauri allows in event names (ASCII part of `is_alphanumeric() || - / : _`)
@@ -370,13 +389,8 @@ pub proof fn lemma_C12_listener_name_is_an_identifier(e: Seq<char>)
     }
 }
 
-//@ PROPS C12
-/// C12: "under a ... unique function identifier": distinct legal event names get distinct listener names
-pub proof fn lemma_C12_listener_names_are_unique(e1: Seq<char>, e2: Seq<char>)
-    requires tauri_event_name(e1), tauri_event_name(e2), e1 != e2,
-    ensures "on"@ + pascal_spec(event_norm(e1)) != "on"@ + pascal_spec(event_norm(e2)),
-{
-}
+// C12 "unique": event_name_to_function is NOT injective ("user-login" / "user_login"); since /repo edb1036 the names are
+// made unique afterwards by unique_function_names, which is under contract in unit `unique`.
 
 //@ PROPS C06
 /// C06: "unattributed items keep their Rust name" (default configuration: default_field_case = snake_case,
